@@ -13,9 +13,10 @@
                         pulse == a2p s angle /\ angle == p2a s pulse           (DESIGN.md A.4)
      same_config s s' := pin and the four calibration bounds are equal
      reads r q       := r = Ok (SFloat x) for some x == q
+     strace ops s    := all level events of the history ops from s;  sev_ok s e := the invariant read on event e
    Floats are exact rationals; == is equality of rationals. *)
 From Coq Require Import ZArith QArith List Bool.
-From RV Require Import Base.Wire Base.NumM Gen.C19Motor Host.Servo Proofs.NumMP Proofs.ServoP.
+From RV Require Import Base.Wire Base.NumM Base.XFloat Gen.C19Motor Host.Servo Host.ActuatorsX Proofs.NumMP Proofs.ServoP Proofs.ActuatorsXP.
 Import ListNotations.
 Local Open Scope Q_scope.
 
@@ -144,6 +145,50 @@ Theorem C19_servo_events : forall s op,
   end.
 Proof. exact ServoP.servo_events. Qed.
 Print Assumptions C19_servo_events.
+
+(* every position any history ever commands - after any earlier history - lies inside both
+   configured ranges and on the configured line (the invariant, read on the level events) *)
+Theorem C19_servo_history_events : forall a s0 pre ops,
+  servo_ctor a = inl s0 -> Forall (sev_ok s0) (strace ops (srun pre s0)).
+Proof. exact ServoP.trace_sev_reachable. Qed.
+Print Assumptions C19_servo_history_events.
+
+(* exactly one level event per successful write/write_us, none for getters and failing calls *)
+Theorem C19_servo_event_count : forall s op,
+  length (sevents (sstep s op)) = if swrites_ok s op then 1%nat else 0%nat.
+Proof. exact ServoP.step_sev_count. Qed.
+Print Assumptions C19_servo_event_count.
+
+(* ====================================================================== *)
+(* IEEE specials as calibration bounds (finding F-C19-servo-nonfinite-bound) *)
+(* ====================================================================== *)
+
+(* REFUTED: the constructor's two checks (min >= max) accept bounds that are not finite numbers
+   - every comparison with NaN is False - so "angle and pulse stay within their bounds" fails
+   from the construction on.  Witness: Servo(min_angle=float('nan')). *)
+Theorem C19_servo_bounds_nonfinite_refuted :
+  exists a b c d, servo_bounds_accepted a b c d = true /\
+                  ~ (xfinite a = true /\ xfinite b = true /\ xfinite c = true /\ xfinite d = true).
+Proof. exact ActuatorsXP.servo_bounds_nonfinite_refuted. Qed.
+Print Assumptions C19_servo_bounds_nonfinite_refuted.
+
+(* PARTIAL (guard: the four bounds are finite floats): accepted exactly when min < max on both
+   axes - the hypothesis servo_cfg_ok under which all theorems above are proved *)
+Theorem C19_servo_bounds_partial : forall qa qb qc qd,
+  servo_bounds_accepted (XFin qa) (XFin qb) (XFin qc) (XFin qd) = true <-> qa < qb /\ qc < qd.
+Proof. exact ActuatorsXP.servo_bounds_finite. Qed.
+Print Assumptions C19_servo_bounds_partial.
+
+Example C19_servo_bounds_nonvacuous :
+  servo_bounds_accepted XNaN (XFin (180 # 1)) (XFin (544 # 1)) (XFin (2400 # 1)) = true /\
+  servo_bounds_accepted XNInf (XFin (180 # 1)) (XFin (544 # 1)) XPInf = true /\
+  servo_bounds_accepted (XFin 0) XNaN (XFin (544 # 1)) XNaN = true /\
+  servo_bounds_accepted XPInf XPInf (XFin (544 # 1)) (XFin (2400 # 1)) = false /\
+  servo_bounds_accepted (XFin 0) XNInf (XFin (544 # 1)) (XFin (2400 # 1)) = false /\
+  servo_bounds_accepted (XFin 0) (XFin (180 # 1)) (XFin (2400 # 1)) (XFin (544 # 1)) = false /\
+  servo_bounds_accepted (XFin 0) (XFin (180 # 1)) (XFin (544 # 1)) (XFin (2400 # 1)) = true.
+Proof. vm_compute. repeat split. Qed.
+Print Assumptions C19_servo_bounds_nonvacuous.
 
 (* ====================================================================== *)
 (* non-vacuity: the hypotheses above are satisfiable by non-trivial states *)
